@@ -334,7 +334,7 @@ func (w *tw) attach() bool {
 
 func runTransparency(c *ev.Ctx, prop string) {
 	r := c.Rand(prop + "transparency")
-	rounds := c.Sz(40, 600)
+	rounds := c.Sz(40, 6000)
 	idx := 0
 	for ver := uint32(0); ver <= 7; ver++ {
 		for round := 0; round < rounds; round++ {
